@@ -99,6 +99,7 @@ def _inner_part_overaligned(env, reach, lay):
 EXPLAINS = {
     ("C03", "compat"): {"cpp-optional-of-struct-with-limited-array"},
     ("C07", "memsafe"): {"cpp-optional-of-struct-with-limited-array"},
+    ("C05", "gbs"): {"cpp-optional-of-struct-with-limited-array"},
 }
 
 
